@@ -42,6 +42,9 @@ type Leaf interface {
 	// Static returns true if the leaf and all ancestors are static routes.
 	Static() bool
 
+	// setShortLeaf sets the leaf that stands for the same route without its
+	// optional segment.
+	setShortLeaf(l Leaf)
 	// getParent returns the parent tree the leaf belongs to.
 	getParent() Tree
 	// getSegment returns the segment that the leaf is derived from.
@@ -60,6 +63,7 @@ type baseLeaf struct {
 	segment       *Segment       // The segment that the leaf is derived from.
 	handler       Handler        // The handler bound to the leaf.
 	headerMatcher *HeaderMatcher // The matcher for header values.
+	shortLeaf     Leaf           // The leaf of the same route without its optional segment.
 }
 
 func (l *baseLeaf) getParent() Tree {
@@ -70,8 +74,15 @@ func (l *baseLeaf) getSegment() *Segment {
 	return l.segment
 }
 
+func (l *baseLeaf) setShortLeaf(short Leaf) {
+	l.shortLeaf = short
+}
+
 func (l *baseLeaf) SetHeaderMatcher(m *HeaderMatcher) {
 	l.headerMatcher = m
+	if l.shortLeaf != nil {
+		l.shortLeaf.SetHeaderMatcher(m)
+	}
 }
 
 func (l *baseLeaf) matchHeader(header http.Header) bool {
